@@ -88,7 +88,8 @@ func (tp *ethTxPool) loop() {
 			tp.Lock()
 			for addr := range tp.waitingBeats {
 				if time.Since(tp.waitingBeats[addr]) > tp.waitingLifeTime {
-					if tp.waiting[addr].Get(tp.safeGetNonce(addr)) != nil {
+					// the next nonce this account can execute comes after what is already pending
+					if tp.waiting[addr].Get(tp.unSafeGetPendingMaxNonce(addr)) != nil {
 						continue
 					}
 
